@@ -9,6 +9,7 @@ import (
 	"crypto/tls"
 	"crypto/x509"
 	"fmt"
+	"github.com/saucelabs/forwarder/internal/zzverif/tcore"
 	"strings"
 	"testing"
 	"time"
@@ -237,11 +238,13 @@ func loopScenario(x *explore.X) {
 
 func TestC18(t *testing.T) {
 	s := explore.NewSuite(t, "C18", "exploration",
-		"Via chains of 0-3 elements drawn from 5 foreign elements (incl. same name with a different instance tag, the bare name, a comment) with this instance's own element (5 spellings: as emitted, with comment, other received-protocol) absent or at every position, in one line or split over two lines at every boundary, x request kind (absolute-form, origin-form, inside a MITM'd tunnel) x client version; deviation-bounded (D=5 quick, 7 thorough); the own element is learnt from a first forwarded request; plus real forwarding loops of one instance (upstream = itself) and two instances (A->B->A, same or different names) x version, full product; non-trivial = the chain was sent and the outcome compared")
+		"Via chains of 0-3 elements drawn from 5 foreign elements (incl. same name with a different instance tag, the bare name, a comment) with this instance's own element (5 spellings: as emitted, with comment, other received-protocol) absent or at every position, in one line or split over two lines at every boundary, x request kind (absolute-form, origin-form, inside a MITM'd tunnel) x client version; deviation-bounded (D=5 quick, 7 thorough); the own element is learnt from a first forwarded request; plus real forwarding loops of one instance (upstream = itself) and two instances (A->B->A, same or different names) x version, full product; non-trivial = the chain was sent and the outcome compared; plus (concurrent-via, Engine T) ONE Via modifier used by two requests at once (5 chains x 5 chains x HTTP/1.0 or 1.1 each), via_modifier.go rebuilt with a scheduling point before every statement, every interleaving with at most 2 (quick) / 3 (thorough) preemptions: each request is refused iff its own chain contains this instance's element and otherwise leaves with its own chain plus one element")
 	s.Assume = []string{"simnet models TCP", "the instance tag is read from the first forwarded request, never predicted"}
 	s.Add(explore.Scenario{Name: "chains", Remote: true, MaxDev: map[string]int{"quick": 5, "thorough": 7},
 		Run: func(x *explore.X) { world.Run(t, x, func() { scenario(x) }) }})
 	s.Add(explore.Scenario{Name: "loops", Remote: true,
 		Run: func(x *explore.X) { world.Run(t, x, func() { loopScenario(x) }) }})
+	s.Add(explore.Scenario{Name: "concurrent-via", Remote: true, MaxDev: map[string]int{"quick": 2, "thorough": 3},
+		Run: func(x *explore.X) { tcore.ConcurrentVia(t, x) }})
 	s.Main()
 }
